@@ -31,6 +31,32 @@ fn r3eq(a: RenNrenCo2, b: RenNrenCo2) -> bool {
 
 /// C01 on one result; returns a description of the first violated sentence
 pub fn c01(ep: &EnergyPerformance) -> Option<String> {
+    // "for every energy carrier of the building": every carrier that has a consumption, production or auxiliary component has a balance,
+    // and the EPB use / production of that balance are those of the building's components (read from their public fields)
+    {
+        let n = ep.components.data.iter().map(|c| match c { Energy::Used(e) => e.values.len(), Energy::Prod(e) => e.values.len(), Energy::Aux(e) => e.values.len(), Energy::Out(e) => e.values.len() }).max().unwrap_or(0);
+        let mut epus: std::collections::HashMap<Carrier, Vec<f32>> = std::collections::HashMap::new();
+        let mut prod: std::collections::HashMap<Carrier, Vec<f32>> = std::collections::HashMap::new();
+        for c in &ep.components.data {
+            let (cr, vals, is_epus, is_prod) = match c {
+                Energy::Used(e) => (e.carrier, &e.values, e.service.is_epb(), false),
+                Energy::Aux(e) => (Carrier::ELECTRICIDAD, &e.values, e.service.is_epb(), false),
+                Energy::Prod(e) => (Carrier::from(e.source), &e.values, false, true),
+                Energy::Out(_) => continue,
+            };
+            let u = epus.entry(cr).or_insert_with(|| vec![0.0; n]);
+            if is_epus { for (i, v) in vals.iter().enumerate() { if i < n { u[i] += v; } } }
+            let p = prod.entry(cr).or_insert_with(|| vec![0.0; n]);
+            if is_prod { for (i, v) in vals.iter().enumerate() { if i < n { p[i] += v; } } }
+        }
+        for (cr, u) in &epus {
+            let b = match ep.balance_cr.get(cr) { Some(b) => b, None => return Some(format!("{}: the building has components of this carrier (EPB use {:?}) but the result has no balance for it", cr, u)) };
+            for i in 0..n.min(b.used.epus_t.len()) {
+                if !eq(b.used.epus_t[i], u[i]) { return Some(format!("{} step {}: EPB use in the balance {} != EPB use of the building's components {}", cr, i, b.used.epus_t[i], u[i])); }
+                if !eq(b.prod.t[i], prod[cr][i]) { return Some(format!("{} step {}: production in the balance {} != production of the building's components {}", cr, i, b.prod.t[i], prod[cr][i])); }
+            }
+        }
+    }
     for (cr, b) in &ep.balance_cr {
         let n = b.used.epus_t.len();
         for i in 0..n {
